@@ -128,6 +128,7 @@ def replay_batch(in_path, out_path, workdir):
 # ----------------------------------------------------------------------------- real fits
 FAMILIES = {
     # name: (function string, design matrix columns as functions of x) -- the closed form (P5) is the harness's own
+    "const": ("a0", lambda x: [1.0 + 0 * x]),          # no x: the model function returns a scalar
     "prop": ("a0*x", lambda x: [x]),
     "line": ("a0*x + a1", lambda x: [x, 1.0 + 0 * x]),
     "quad": ("a0 + a1*x + a2*x**2", lambda x: [1.0 + 0 * x, x, x * x]),
